@@ -169,6 +169,35 @@ async def scenario_b(world, spec):
     world.probe("resumed-after-cancel")
     outcome.update(resumed=True, handler=handler2, wf=wf2)
     consumer2 = asyncio.ensure_future(world.consume(handler2, "c2"))
+    if world.tape.chance(40, 100, "cancel.again?"):
+        # a second round: the resumed run works for a while, is cancelled too, and its context is serialized and resumed again
+        d2 = world.tape.choice([1, 1, 2, 3], "cancel2.at")
+        sl = asyncio.ensure_future(asyncio.sleep(d2))
+        q = world.loop.quiesce()
+        await asyncio.wait([sl, q, handler2._result_task], return_when=asyncio.FIRST_COMPLETED)
+        sl.cancel()
+        if not handler2.is_done():
+            world.fault("cancel-run")
+            world.trace.log("cancel-request", open_bodies=sorted(r["step"] for r in world.open_bodies.values()), second=True)
+            await handler2.cancel_run()
+            try:
+                js2 = json.loads(json.dumps(handler2.ctx.to_dict()))
+            except BaseException as e:  # noqa: BLE001
+                world.violate("C31.not-resumable", f"ctx.to_dict() of a run that was itself resumed from a cancelled context, after its own cancel_run, raised "
+                              f"{type(e).__name__}: {e}", how="to_dict-raises-second-round")
+                return outcome
+            world.dead_runs["run2"] = world.trace.log("snapshot", after="cancel", second=True)
+            wf3 = build_workflow(spec, world)
+            try:
+                handler3 = wf3.run(ctx=Context.from_dict(wf3, js2), run_id="run3")
+            except BaseException as e:  # noqa: BLE001
+                world.violate("C31.not-resumable", f"resuming a second time raised {type(e).__name__}: {e}", how="resume-raises-second-round")
+                return outcome
+            world.probe("cancelled-and-resumed-twice")
+            consumer2.cancel()
+            outcome.update(handler=handler3, wf=wf3)
+            consumer3 = asyncio.ensure_future(world.consume(handler3, "c3"))
+            return await _finish(world, spec, handler3, consumer3, [], outcome)
     return await _finish(world, spec, handler2, consumer2, [], outcome)
 
 
@@ -255,14 +284,18 @@ def run(tape):
     def chk(world, spec, outcome):
         _LAST["s"] = c12._summary(world, outcome)
         _LAST["resumed"] = bool(outcome and outcome.get("resumed"))
+        # events handed to a run that was then cancelled (first or second round) and still in its mailbox at that moment
         pend = set()
-        for seq, t, kind, f in world.trace.recs:
-            if f.get("run") != "run1":
-                continue
-            if kind == "deliver" and f.get("tick") == "add_event":
-                pend.add(f["uid"])
-            elif kind == "tick" and f["tick"] == "add_event":
-                pend.discard(f["uid"])
+        for run, dead_seq in world.dead_runs.items():
+            p = set()
+            for seq, t, kind, f in world.trace.recs:
+                if f.get("run") != run or seq > dead_seq:
+                    continue
+                if kind == "deliver" and f.get("tick") == "add_event":
+                    p.add(f["uid"])
+                elif kind == "tick" and f["tick"] == "add_event":
+                    p.discard(f["uid"])
+            pend |= p
         _LAST["undelivered"] = bool(pend)
         if pend:
             world.probe("cancelled-with-undelivered-events")
